@@ -1,6 +1,8 @@
 (* C04 — REQUEST verdicts follow the sender's binding and the message's addressing.  Statements only. *)
 From PSA Require Import gen.GoFacts model.Bytes model.Clients model.Ipdb model.Dhcp spec.SpecTable spec.SpecIpdb model.Server
   proofs.ServerProofs.
+From PSA Require Import spec.Monitors.
+From PSA Require Import spec.WireHyps spec.WireExample proofs.WireProofs proofs.WireInv proofs.WireLease proofs.WireSnap proofs.WireHypsProofs proofs.WireExampleProofs.
 Open Scope N_scope.
 
 (* acknowledged only if the sender holds the binding for exactly the designated address, which the ACK carries *)
@@ -43,6 +45,30 @@ Theorem C04_ignored_is_noop : forall c t r, Monitors.handled c (r_pkt r) = false
   forall t', accept_round c t r = RAcc t' -> t' = t /\ r_outs r = [].
 Proof. exact junk_is_noop. Qed.
 Print Assumptions C04_ignored_is_noop.
+
+(* ON THE WIRE, over whole histories: on every accepted history mon_C04 holds - for every DHCPREQUEST at most one reply; an ACK
+   only if the listing before the packet shows the sender bound to exactly the address the request designates (requested-address
+   option, else the source address), and the ACK carries that address; no reply at all when the request bears the server's own
+   hardware address, names another server, designates an address outside the managed network or is unicast elsewhere; and a NAK
+   whenever a request that selects this server (broadcast, server identifier = this server, requested address) or renews by
+   unicast to it (no such options) designates an in-network address the sender is not bound to.
+   The acceptor (model/Server.v) is what every run compares the implementation with, round by round (tag 101); the premises
+   are boolean conditions (spec/WireHyps.v) evaluated on every generated history (tag 220, Cxx_premises below); the rounds are
+   sequential with a table listing after each (interleavings: the theorems over operation histories above). *)
+Theorem C04_on_the_wire : forall c h, cfg_wire_ok c -> cfg_srv_ok c -> durations_ok c -> Forall wf_round h -> snap_times 0%Z h ->
+  accepted c h -> mon_C04 c h = true.
+Proof. exact accepted_history_c04. Qed.
+Print Assumptions C04_on_the_wire.
+
+Theorem C04_premises : forall c h, wire_hyps c h = true -> wire_premises c h.
+Proof. exact wire_hyps_premises. Qed.
+Print Assumptions C04_premises.
+
+(* the premises hold of, and the acceptor accepts, a recorded history of the real server (OFFER, ACK, NAK on an ARP conflict, silent rounds) *)
+Theorem C04_wire_nonvacuous : exists c h, wire_example = Some (c, h) /\ wire_premises c h /\ accepted c h /\
+  length h = 6%nat /\ length (events c h) = 2%nat /\ length (flat_map r_outs h) = 3%nat.
+Proof. exact wire_example_full. Qed.
+Print Assumptions C04_wire_nonvacuous.
 
 Example C04_nonvacuous :
   let c := {| c_self_ip := 11; c_self_mac := [2]; c_lease := 60; c_db := {| net_from := 10; net_to := 20; dyn_from := 12; dyn_to := 13; st := empty_store |};
